@@ -162,7 +162,6 @@ theorem pass_measured {z : Bytes} {a : Archive} (hp : parse z = some a) (hc : a.
 theorem manglerRewrite_parses {z : Bytes} {a : Archive} (hp : parse z = some a) (hc : a.ends.comment = [])
     (h42 : 42 ≤ z.length) (h63 : z.length < 2 ^ 63) (hfix : (a.members.all fun m => fixedNeed m.entry.need) = true)
     (hsigned : descSigned a = true) (hw : (a.members.all (widthOK a)) = true)
-    (hx : ∀ sm ∈ a.members, sm.entry.extra.length + 28 < 2 ^ 16)
     (mt md : Nat) (hmt : mt < 2 ^ 16) (hmd : md < 2 ^ 16) (news : List NewMember) (hnews : ∀ n ∈ news, NewOK n)
     (force : Bool) (out : Bytes) (h : manglerRewrite z news mt md force = .ok out) (hbound : out.length < 2 ^ 64) :
     ∃ kms0 a', MeasuredL z a a.ends.cdOff kms0 ∧ kms0.map (·.2.1) = a.members ∧ parse out = some a' ∧
@@ -195,7 +194,6 @@ theorem manglerRewrite_parses {z : Bytes} {a : Archive} (hp : parse z = some a) 
       · next hne =>
         have hpos : pos = d.dirLoc := by simpa using hne
         have hcm : contigMs 0 ms d.dirLoc := by rw [← hpos]; exact w5 rfl
-        simp only [Res.ok.injEq] at h
         generalize hkms : setKeep vsixKeep kms0 = kms at *
         have hM : MeasuredL z a a.ends.cdOff kms := by rw [← hkms]; exact MeasuredL_flags _ kms0 _ hM0
         have hmem : ∀ q ∈ kms, q.2.1 ∈ a.members := by
@@ -216,6 +214,17 @@ theorem manglerRewrite_parses {z : Bytes} {a : Archive} (hp : parse z = some a) 
         simp only [List.nil_append] at hA
         obtain ⟨a1, a2, a3, _⟩ := hA
         generalize hP : addNews mt md news ([], nd1) = P at *
+        have hH : headersOK P.2.files = true := by
+          cases hh : headersOK P.2.files with
+          | true => rfl
+          | false => rw [hh] at h; simp at h
+        rw [hH] at h
+        simp only [Bool.not_true, Bool.false_eq_true, if_false, Res.ok.injEq] at h
+        have hx : ∀ q ∈ keptPMs z kms 0, dirHeaderOK q.1 = true := by
+          intro q hq
+          rw [a2, e_files] at hH
+          simp only [headersOK, List.all_eq_true] at hH
+          exact hH q.1 (List.mem_append_left _ (List.mem_map.mpr ⟨q, hq, rfl⟩))
         have hkl := keptBytesK_length hcdz kms _ hM
         have hBl : (keptBytesK z kms ++ P.1).length = P.2.dirLoc := by
           rw [List.length_append, hkl, a1, a3, e_loc]
@@ -231,7 +240,7 @@ theorem manglerRewrite_parses {z : Bytes} {a : Archive} (hp : parse z = some a) 
           have := congrArg List.length hout
           simp only [List.length_append] at this hbound ⊢
           omega
-        obtain ⟨a', hp', hfor, hview, e1, e2, e3, _, _, hR⟩ := kept_news_parses hcdz hx kms _ hM hmem mt md hmt hmd news hnews force
+        obtain ⟨a', hp', hfor, hview, e1, e2, e3, _, _, hR⟩ := kept_news_parses hcdz kms _ hM hmem mt md hmt hmd news hnews hx force
           (keptBytesK z kms ++ P.1) (headersOf P.2.files).1
           (endRecords P.2.files.length (headersOf P.2.files).1.length P.2.dirLoc force (maxReader P.2.files)) P.2.files
           (by rw [a1, e_loc]) (by rw [a2, e_files, e_loc]) rfl (by rw [hBl]) hb2
@@ -247,7 +256,7 @@ theorem manglerRewrite_parses {z : Bytes} {a : Archive} (hp : parse z = some a) 
             apply keptLenK_le kms 0 _
             rw [← hkms]; exact contigK_setKeep _ _ _ _ hck0
           rcases List.mem_append.mp hq with hq | hq
-          · exact keptPMs_readable hcdz hx hfix hw kms _ 0 hM hmem (by omega) q hq
+          · exact keptPMs_readable hcdz hfix hw kms _ 0 hM hmem (by omega) hx q hq
           · exact newPMs_readable mt md news _ (fun n hn => ⟨hnews n hn, hnr n hn⟩) q hq
         subst hkms
         refine ⟨kms0, a', hM0, hsm0, hp', hview, by rw [e1]; exact hfor, e2, ?_, hck0, ecd, hRR⟩
@@ -264,7 +273,6 @@ theorem manglerRewrite_parses {z : Bytes} {a : Archive} (hp : parse z = some a) 
 theorem jarRewrite_parses {z : Bytes} {a : Archive} (hp : parse z = some a) (hc : a.ends.comment = [])
     (h42 : 42 ≤ z.length) (h63 : z.length < 2 ^ 63) (hfix : (a.members.all fun m => fixedNeed m.entry.need) = true)
     (hsigned : descSigned a = true) (hw : (a.members.all (widthOK a)) = true)
-    (hx : ∀ sm ∈ a.members, sm.entry.extra.length + 28 < 2 ^ 16)
     (mt md : Nat) (hmt : mt < 2 ^ 16) (hmd : md < 2 ^ 16) (news : List NewMember) (hnews : ∀ n ∈ news, NewOK n)
     (out : Bytes) (h : jarRewrite z news mt md = .ok out) (hbound : out.length < 2 ^ 64) :
     ∃ kms0 a', MeasuredL z a a.ends.cdOff kms0 ∧ kms0.map (·.2.1) = a.members ∧ parse out = some a' ∧
@@ -301,7 +309,12 @@ theorem jarRewrite_parses {z : Bytes} {a : Archive} (hp : parse z = some a) (hc 
       · next hne =>
         have hpos : pos = d.dirLoc := by simpa using hne
         have hcm : contigMs 0 ms d.dirLoc := by rw [← hpos]; exact w5 rfl
-        simp only [Res.ok.injEq] at h
+        have hH : headersOK nd.files = true := by
+          cases hh : headersOK nd.files with
+          | true => rfl
+          | false => rw [hh] at h; simp at h
+        rw [hH] at h
+        simp only [Bool.not_true, Bool.false_eq_true, if_false, Res.ok.injEq] at h
         generalize hkms : setKeep jarKeep kms0 = kms at *
         have hM : MeasuredL z a a.ends.cdOff kms := by rw [← hkms]; exact MeasuredL_flags _ kms0 _ hM0
         have hmem : ∀ q ∈ kms, q.2.1 ∈ a.members := by
@@ -317,6 +330,11 @@ theorem jarRewrite_parses {z : Bytes} {a : Archive} (hp : parse z = some a) (hc 
           rw [w2, a3, ← hms, keptLen_K jarKeep kms0, hkms]
         have e_kb : applyDels z 0 dels d.dirLoc = keptBytesK z kms := by
           rw [w3, List.nil_append, applyDels_contig z jarKeep ms 0 _ hcm, ← hms, keptBytes_K z jarKeep kms0, hkms]
+        have hx : ∀ q ∈ keptPMs z kms L, dirHeaderOK q.1 = true := by
+          intro q hq
+          rw [e_files] at hH
+          simp only [headersOK, List.all_eq_true] at hH
+          exact hH q.1 (List.mem_append_right _ (List.mem_map.mpr ⟨q, hq, rfl⟩))
         have hkl := keptBytesK_length hcdz kms _ hM
         have hBl : (body ++ keptBytesK z kms).length = nd.dirLoc := by
           rw [List.length_append, hkl, a1, e_loc, hL]
@@ -332,7 +350,7 @@ theorem jarRewrite_parses {z : Bytes} {a : Archive} (hp : parse z = some a) (hc 
           have := congrArg List.length hout
           simp only [List.length_append] at this hbound ⊢
           omega
-        obtain ⟨a', hp', hfor, hview, e1, e2, _, _, _, hR⟩ := news_kept_parses hcdz hx kms _ hM hmem mt md hmt hmd news hnews false
+        obtain ⟨a', hp', hfor, hview, e1, e2, _, _, _, hR⟩ := news_kept_parses hcdz kms _ hM hmem mt md hmt hmd news hnews (by rw [hL]; exact hx) false
           (body ++ keptBytesK z kms) (headersOf nd.files).1
           (endRecords nd.files.length (headersOf nd.files).1.length nd.dirLoc false (maxReader nd.files)) nd.files
           (by rw [a1]) (by rw [e_files, hL]) rfl (by rw [hBl]) hb2
@@ -351,7 +369,7 @@ theorem jarRewrite_parses {z : Bytes} {a : Archive} (hp : parse z = some a) (hc 
             omega
           rcases List.mem_append.mp hq with hq | hq
           · exact newPMs_readable mt md news _ (fun n hn => ⟨hnews n hn, hnr n hn⟩) q hq
-          · exact keptPMs_readable hcdz hx hfix hw kms _ L hM hmem hb64 q hq
+          · exact keptPMs_readable hcdz hfix hw kms _ L hM hmem hb64 hx q hq
         subst hkms
         subst hL
         exact ⟨kms0, a', hM0, hsm0, hp', hview, by rw [e1]; exact hfor, e2, hck0, ecd, hRR⟩
